@@ -586,7 +586,7 @@ def SHARDS(tier):
     sh = [{"part": "enum", "cat": i, "preemptions": 2 if (tier != "quick" or (c["njobs"] <= 2 and c["size"] <= 2 and not c["blocking"] and not c.get("closer"))) else 1}
           for i, c in enumerate(cat)]
     sh += [{"part": "random"} for _ in range(4 if tier == "quick" else 8)]
-    sh += [{"part": "history"} for _ in range(2 if tier == "quick" else 6)]
+    sh += [{"part": "history", "h": j, "hn": (2 if tier == "quick" else 6)} for j in range(2 if tier == "quick" else 6)]
     sh += [{"part": "live"}]
     return sh
 
@@ -609,22 +609,25 @@ def run(ctx):
         ctx.exhaustive = True
         ctx.notes["schedules_enumerated"] = n
     elif sh.get("part") == "history":
-        if sh["index"] % 2 == 0:
+        if sh.get("h", sh["index"]) % 2 == 0:
             for case in history_catalogue():
                 ctx.observe(case, run_case(case), True, _history_labels(case) + ["catalogue"])
         else:
             # every single deviation from run-to-block for the short catalogue histories of pools that can shrink (a worker that is
             # being retired is held back while the accept loop goes on submitting)
             n = 0
-            for case in history_catalogue():
+            k_shard, n_shards = sh.get("h", 1) // 2, max(1, sh.get("hn", 2) // 2)        # (the enumerating history shards share the catalogue)
+            for ci, case in enumerate(history_catalogue()):
                 if case["cfg"]["minsize"] == case["cfg"]["size"] or (ctx.tier == "quick" and (case["cfg"]["size"] > 2 or len(case["ops"]) > 12)):
+                    continue
+                if ctx.tier != "quick" and ci % n_shards != k_shard % n_shards:
                     continue
 
                 def run_with(preempt, case=case):
                     sch, f = run_history(case["cfg"], case["ops"], None, (), preempt=preempt or None)
                     sch._f = f
                     return sch
-                for preempt, sch in S.enumerate_schedules(run_with, 1 if ctx.tier == "quick" else 2, limit=3000 if ctx.tier == "quick" else 60000):
+                for preempt, sch in S.enumerate_schedules(run_with, 1 if ctx.tier == "quick" else 2, limit=3000 if ctx.tier == "quick" else 8000):
                     c2 = dict(case, preempt={str(k): v for k, v in preempt.items()})
                     ctx.observe(c2, check_history(c2, sch, sch._f), sch.preempted_in_files > 0, _history_labels(case) + ["history-schedule-enumeration"])
                     n += 1
